@@ -28,11 +28,15 @@ ASSUMPTIONS = ["grey: holders containing a notice-like token or starting with fo
 MIN_NONTRIVIAL = {"quick": 600, "thorough": 30000}
 
 PLAIN_HOLDERS = ["Jane Doe", "Example Corp. <https://example.com>", "Zoë Müller <z@example.org>", "ACME, Inc.", "名前 太郎",
-                 "O'Neil & Sons", "The X Authors (see AUTHORS)", "Team [core]"]
+                 "O'Neil & Sons", "The X Authors (see AUTHORS)", "Team [core]",
+                 # a number in the name is part of the name, whatever it looks like
+                 "Studio 2000 GmbH", "Les Éditions 1789 S.A.", "Agenda 2030 Working Group", "4711 Kölnisch Wasser"]
 HOSTILE_HOLDERS = ["Jane */ Doe", "Ends with -->", "curly }", "x #} y", "a *) b", "tail :)", "q '/ r", "w --}} z", "e =# f", "u *# v",
                    "p --%> q", "Jane */", "trail #}"]
 LICS = ["MIT", "GPL-3.0-or-later", "Apache-2.0 OR MIT", "GPL-2.0-or-later WITH Classpath-exception-2.0", "LicenseRef-own-1.0",
-        "MIT AND (0BSD OR ISC)"]
+        "MIT AND (0BSD OR ISC)",
+        # what is written is what is asked for, also when Boolean algebra could shorten it
+        "Apache-2.0 OR (Apache-2.0 AND LicenseRef-extra-terms)", "MIT AND (MIT OR ISC)", "MIT OR MIT"]
 CUSTOMS = ("custom", "custom-html", "custom-xml", "custom-txt")
 FAITHFUL = {None, "nocontrib", "commented"} | set(CUSTOMS)
 
